@@ -396,6 +396,28 @@ def fileParse (fs : Bytes → Except Bool Bytes) (h : Option Handle) : Option Ha
       | .error ne => (some h, false, some (.openFailed ne))
       | .ok content => (some { h with parsed := true, file := parse content }, true, none)
 
+/-- what `p_ini_file_parse` does besides its result: the number of `fclose` calls and of `P_WARNING` lines (stdout) -/
+structure ParseEffects where
+  fcloseCalls : Nat
+  warnings : Nat
+  deriving Repr, DecidableEq
+
+/-- `p_ini_file_parse` with the result of its final `fclose (in_file)` scripted as well (`closeOk = false`: the call
+returned EOF).  `if (fclose (in_file) != 0) P_WARNING (…);` only logs: `is_parsed` is set and TRUE is returned either way.
+`fclose` is called once, and only when the file was opened. -/
+def fileParseClose (fs : Bytes → Except Bool Bytes) (closeOk : Bool) (h : Option Handle) :
+    (Option Handle × Bool × Option ParseError) × ParseEffects :=
+  match h with
+  | none => ((none, false, some .invalidArgument), ⟨0, 0⟩)
+  | some h =>
+    if h.parsed then ((some h, true, none), ⟨0, 0⟩)
+    else match fs h.path with
+      | .error ne => ((some h, false, some (.openFailed ne)), ⟨0, 0⟩)
+      | .ok content =>
+        let h1 : Handle := { h with file := parse content }
+        let w : Nat := if closeOk then 0 else 1                -- the warning changes no state
+        ((some { h1 with parsed := true }, true, none), ⟨1, w⟩)
+
 /-- `p_ini_file_is_parsed` -/
 def fileIsParsed (h : Option Handle) : Bool :=
   match h with
